@@ -1,4 +1,6 @@
 import BnpVerif.Model.C17
+import BnpVerif.Props.C18
+import BnpVerif.Gen.C17
 /-! C17 property theorems. Helper lemmas first; the property theorems are the ones listed in
 `Audit/C17.lean`. -/
 namespace C17
@@ -639,6 +641,441 @@ theorem contig_lengths (rs : List Rec) (hwf : ∀ x ∈ rs, WFRec x) :
     funext r; simp [firstWord_idem]
   rw [this, spec_lengths]
 
+
+open Base
+
+/-! ### multi-chunk index building -/
+
+theorem specIndexFrom_shift (off k : Nat) (rs : List Rec) :
+    (specIndexFrom off rs).map (fun r => { r with offset := r.offset + k }) = specIndexFrom (off + k) rs := by
+  induction rs generalizing off with
+  | nil => rfl
+  | cons r rs ih =>
+    simp only [specIndexFrom, List.map_cons]
+    rw [ih]
+    congr 2 <;> omega
+
+/-- **C17.index_chunks**: offsets add up across chunks — for EVERY way of cutting the file at record
+boundaries into chunks (any number of chunks, any number of records per chunk, empty chunks
+included), indexing the chunks separately and shifting by the accumulated chunk sizes gives exactly
+the index of the whole file. (That the reader cuts wrapped FASTA only right before a header line is
+`C01.readAll_bytes_fasta` / `Fmt.fasta.cutLen`.) -/
+theorem index_chunks (groups : List (List Rec)) (h : ∀ g ∈ groups, ∀ r ∈ g, WFRec r) :
+    createIndexChunked (groups.map fileOf) = createIndex (fileOf groups.flatten) := by
+  have hall : ∀ r ∈ groups.flatten, WFRec r := by
+    intro r hr
+    obtain ⟨g, hg, hrg⟩ := List.mem_flatten.mp hr
+    exact h g hg r hrg
+  rw [(index_rows _ hall).2]
+  unfold createIndexChunked specIndex
+  have key : ∀ (gs : List (List Rec)) (off : Nat), (∀ g ∈ gs, ∀ r ∈ g, WFRec r) →
+      createIndexChunkedFrom off (gs.map fileOf)
+        = (specIndexFrom off gs.flatten).map (fun r => { r with name := firstWord r.name }) := by
+    intro gs
+    induction gs with
+    | nil => intro off _; rfl
+    | cons g gs ih =>
+      intro off hg
+      simp only [List.map_cons, createIndexChunkedFrom, List.flatten_cons]
+      rw [(index_rows g (hg g (by simp))).1, ih _ (fun x hx => hg x (by simp [hx]))]
+      rw [specIndexFrom_append, List.map_append]
+      congr 1
+      unfold specIndex
+      have := specIndexFrom_shift 0 off g
+      rw [Nat.zero_add] at this
+      rw [← this, List.map_map]
+      rfl
+  exact key groups 0 h
+
+
+
+/-! ### the written `.fai` read back: `read_index` and `Genome.from_file` -/
+
+def goodName (n : Bytes) : Prop := n ≠ [] ∧ ∀ b ∈ n, isWs b = false
+
+def natText (n : Nat) : Bytes := C18.decimal (n : Int)
+
+theorem natText_eq (n : Nat) : natText n = (C18.digitsBE n).map (· + 48) := by
+  unfold natText
+  rw [C18.decimal_nonneg _ (by omega)]
+  simp
+
+theorem natText_digit (n : Nat) : ∀ b ∈ natText n, 48 ≤ b ∧ b ≤ 57 := by
+  intro b hb
+  rw [natText_eq] at hb
+  obtain ⟨d, hd, rfl⟩ := List.mem_map.mp hb
+  have := C18.digitsBE_lt n d hd
+  omega
+
+theorem natText_ne_nil (n : Nat) : natText n ≠ [] := by
+  rw [natText_eq]
+  intro hc
+  have := congrArg List.length hc
+  simp only [List.length_map, List.length_nil] at this
+  have := (C18.digitsBE_bounds n).2.2
+  omega
+
+theorem natText_not_ws (n : Nat) : ∀ b ∈ natText n, isWs b = false := by
+  intro b hb
+  have := natText_digit n b hb
+  unfold isWs
+  have h1 : (b == 32) = false := by simp; omega
+  have h2 : decide (b ≤ 13) = false := by simp; omega
+  have h3 : decide (b ≤ 31) = false := by simp; omega
+  simp [h1, h2, h3]
+
+theorem specNat_natText (n : Nat) : C18.specNat (natText n) = some n := by
+  rw [natText_eq]; exact C18.specNat_digits n
+
+/-- the fields of one row -/
+def rowFields (r : IdxRow) : List Bytes := [r.name, natText r.rlen, natText r.offset, natText r.lenc, natText r.lenb]
+
+def small (r : IdxRow) : Prop :=
+  r.rlen < 2 ^ 63 ∧ r.offset < 2 ^ 63 ∧ r.lenc < 2 ^ 63 ∧ r.lenb < 2 ^ 63
+
+theorem faiLine_eq (r : IdxRow) (hs : small r) : faiLine r = List.intercalate [9] (rowFields r) ++ [10] := by
+  unfold faiLine rowFields natText
+  obtain ⟨h1, h2, h3, h4⟩ := hs
+  rw [C18.format_int _ (by
+    intro n hn
+    simp only [List.mem_cons, List.not_mem_nil, or_false] at hn
+    unfold C18.int64
+    rcases hn with rfl | rfl | rfl | rfl <;> omega)]
+  rfl
+
+theorem not_mem_intercalate (b sep : Nat) (strs : List Bytes) (hsep : b ≠ sep) (h : ∀ s ∈ strs, b ∉ s) :
+    b ∉ List.intercalate [sep] strs := by
+  induction strs with
+  | nil => simp [List.intercalate]
+  | cons s r ih =>
+    cases r with
+    | nil => simpa [List.intercalate] using h s (by simp)
+    | cons s2 r' =>
+      have e : List.intercalate [sep] (s :: s2 :: r') = s ++ sep :: List.intercalate [sep] (s2 :: r') := by
+        simp [List.intercalate]
+      rw [e]
+      intro hm
+      simp only [List.mem_append, List.mem_cons] at hm
+      rcases hm with hm | hm | hm
+      · exact h s (by simp) hm
+      · exact hsep hm
+      · exact ih (fun t ht => h t (by simp [ht])) hm
+
+theorem field_no (b : Nat) (hb : isWs b = true) (r : IdxRow) (hn : goodName r.name) : ∀ s ∈ rowFields r, b ∉ s := by
+  intro s hs
+  unfold rowFields at hs
+  simp only [List.mem_cons, List.not_mem_nil, or_false] at hs
+  rcases hs with rfl | rfl | rfl | rfl | rfl
+  · intro hm; have := hn.2 b hm; rw [hb] at this; exact Bool.noConfusion this
+  all_goals (intro hm; have := natText_not_ws _ b hm; rw [hb] at this; exact Bool.noConfusion this)
+
+theorem lines_fai (idx : List IdxRow) (hs : ∀ r ∈ idx, small r) (hn : ∀ r ∈ idx, goodName r.name) :
+    linesOf (faiText idx) = idx.map (fun r => List.intercalate [9] (rowFields r)) := by
+  unfold linesOf faiText
+  induction idx with
+  | nil => simp [linesAux]
+  | cons r rs ih =>
+    simp only [List.map_cons, List.flatten_cons]
+    rw [faiLine_eq r (hs r (by simp)), List.append_assoc, List.singleton_append]
+    rw [lines_line [] _ _ (not_mem_intercalate 10 9 _ (by omega) (field_no 10 (by decide) r (hn r (by simp))))]
+    rw [ih (fun x hx => hs x (by simp [hx])) (fun x hx => hn x (by simp [hx]))]
+    simp
+
+theorem firstWord_good (n : Bytes) (h : goodName n) : firstWord n = n := by
+  unfold firstWord
+  have : ∀ l : Bytes, (∀ b ∈ l, isWs b = false) → l.takeWhile (fun b => !isWs b) = l := by
+    intro l
+    induction l with
+    | nil => intro _; rfl
+    | cons c cs ih =>
+      intro hl
+      have hc := hl c (by simp)
+      simp [hc, ih (fun b hb => hl b (by simp [hb]))]
+  exact this n h.2
+
+theorem parse_fai_line (r : IdxRow) (hn : goodName r.name) :
+    parseFaiLine (List.intercalate [9] (rowFields r)) = some r := by
+  unfold parseFaiLine
+  rw [C18.split_join _ 9 (by simp [rowFields]) (field_no 9 (by decide) r hn)]
+  simp only [rowFields, specNat_natText, firstWord_good r.name hn]
+
+/-- **C17.fai_roundtrip**: the index file the library writes, read back by `read_index`, gives the
+same rows (names that are single words, numbers below 2^63) -/
+theorem fai_roundtrip (idx : List IdxRow) (hs : ∀ r ∈ idx, small r) (hn : ∀ r ∈ idx, goodName r.name) :
+    readIndex (faiText idx) = some idx := by
+  unfold readIndex
+  rw [lines_fai idx hs hn]
+  have : ∀ l : List IdxRow, (∀ r ∈ l, goodName r.name) →
+      omap parseFaiLine (l.map (fun r => List.intercalate [9] (rowFields r))) = some l := by
+    intro l hl
+    exact C18.omap_map_some _ _ l (fun r hr => parse_fai_line r (hl r hr))
+  exact this idx hn
+
+/-! `str.split()` on a tab-joined line of whitespace-free, non-empty fields -/
+
+theorem wordsAux_word (cur s : Bytes) (hs : ∀ b ∈ s, isWs b = false) (hne : cur.reverse ++ s ≠ []) :
+    wordsAux cur s = [cur.reverse ++ s] := by
+  induction s generalizing cur with
+  | nil =>
+    have : cur ≠ [] := by intro hc; subst hc; simp at hne
+    simp [wordsAux, this]
+  | cons c cs ih =>
+    have hc := hs c (by simp)
+    simp only [wordsAux, hc, Bool.false_eq_true, if_false]
+    rw [ih (c :: cur) (fun b hb => hs b (by simp [hb])) (by simp)]
+    simp
+
+theorem wordsAux_sep (cur s rest : Bytes) (w : Nat) (hw : isWs w = true) (hs : ∀ b ∈ s, isWs b = false)
+    (hne : cur.reverse ++ s ≠ []) :
+    wordsAux cur (s ++ w :: rest) = (cur.reverse ++ s) :: wordsAux [] rest := by
+  induction s generalizing cur with
+  | nil =>
+    have : cur ≠ [] := by intro hc; subst hc; simp at hne
+    simp [wordsAux, hw, this]
+  | cons c cs ih =>
+    have hc := hs c (by simp)
+    simp only [List.cons_append, wordsAux, hc, Bool.false_eq_true, if_false]
+    rw [ih (c :: cur) (fun b hb => hs b (by simp [hb])) (by simp)]
+    simp
+
+theorem words_join (strs : List Bytes) (h : ∀ s ∈ strs, s ≠ [] ∧ ∀ b ∈ s, isWs b = false) :
+    words (List.intercalate [9] strs) = strs := by
+  unfold words
+  induction strs with
+  | nil => simp [List.intercalate, wordsAux]
+  | cons s r ih =>
+    obtain ⟨hne, hws⟩ := h s (by simp)
+    cases r with
+    | nil => simp [List.intercalate, wordsAux_word [] s hws (by simpa using hne)]
+    | cons s2 r' =>
+      have e : List.intercalate [9] (s :: s2 :: r') = s ++ 9 :: List.intercalate [9] (s2 :: r') := by
+        simp [List.intercalate]
+      rw [e, wordsAux_sep [] s _ 9 (by decide) hws (by simpa using hne), ih (fun t ht => h t (by simp [ht]))]
+      simp
+
+theorem omap_map_map {α β γ} (f : β → Option γ) (g : α → β) (k : α → γ) (l : List α)
+    (h : ∀ a ∈ l, f (g a) = some (k a)) : omap f (l.map g) = some (l.map k) := by
+  induction l with
+  | nil => rfl
+  | cons x xs ih =>
+    simp only [List.map_cons]
+    exact omap_cons_some _ _ _ _ _ (h x (by simp)) (ih (fun a ha => h a (by simp [ha])))
+
+/-- **C17.genome_sizes**: `Genome.from_file` on the written index sees every name with its true
+sequence length column -/
+theorem genome_sizes (idx : List IdxRow) (hs : ∀ r ∈ idx, small r) (hn : ∀ r ∈ idx, goodName r.name) :
+    genomeSizes (faiText idx) = some (idx.map (fun r => (r.name, r.rlen))) := by
+  unfold genomeSizes
+  rw [lines_fai idx hs hn]
+  apply omap_map_map
+  intro r hr
+  have hg := hn r hr
+  rw [words_join (rowFields r) (by
+    intro s hsm
+    unfold rowFields at hsm
+    simp only [List.mem_cons, List.not_mem_nil, or_false] at hsm
+    rcases hsm with rfl | rfl | rfl | rfl | rfl
+    · exact hg
+    all_goals exact ⟨natText_ne_nil _, natText_not_ws _⟩)]
+  simp only [rowFields, specNat_natText]
+
+
+
+theorem wrap_length_ge (W : Nat) (hW : 0 < W) (n : Nat) : ∀ seq : Bytes, seq.length ≤ n → seq ≠ [] →
+    seq.length + 1 ≤ (wrapBytes W seq).length := by
+  induction n with
+  | zero => intro seq hl hs; exact absurd (List.eq_nil_of_length_eq_zero (by omega)) hs
+  | succ m ih =>
+    intro seq hl hs
+    have hL : 0 < seq.length := by cases seq with | nil => exact absurd rfl hs | cons _ _ => simp
+    rw [wrap_cons W hW seq hs]
+    simp only [List.length_append, List.length_cons, List.length_take]
+    by_cases hd : seq.drop W = []
+    · have : seq.length ≤ W := by
+        have := congrArg List.length hd; simp at this; omega
+      rw [hd, wrap_nil]; simp; omega
+    · have := ih (seq.drop W) (by simp; omega) hd
+      simp only [List.length_drop] at this
+      omega
+
+theorem spec_rows_small (off : Nat) (rs : List Rec) (h : ∀ r ∈ rs, WFRec r) :
+    ∀ row ∈ specIndexFrom off rs, row.offset + row.rlen + 1 ≤ off + (fileOf rs).length ∧
+      row.lenc ≤ row.rlen ∧ row.lenb = row.lenc + 1 := by
+  induction rs generalizing off with
+  | nil => intro row hr; simp [specIndexFrom] at hr
+  | cons r rs ih =>
+    intro row hr
+    have hwf := h r (by simp)
+    have hw := wrap_length_ge r.width hwf.width_pos r.seq.length r.seq (Nat.le_refl _) hwf.seq_ne
+    have hf : (fileOf (r :: rs)).length = r.header.length + 2 + (wrapBytes r.width r.seq).length + (fileOf rs).length := by
+      have : fileOf (r :: rs) = recBytes r ++ fileOf rs := by simp [fileOf]
+      rw [this, List.length_append, length_recBytes]
+    simp only [specIndexFrom, List.mem_cons] at hr
+    rcases hr with rfl | hr
+    · simp only; rw [hf]; refine ⟨by omega, by omega, trivial⟩
+    · have := ih _ (fun x hx => h x (by simp [hx])) row hr
+      rw [hf]; omega
+
+theorem firstWord_goodName (h : Bytes) (hh : ∃ c t, h = c :: t ∧ isWs c = false) : goodName (firstWord h) := by
+  obtain ⟨c, t, rfl, hc⟩ := hh
+  constructor
+  · simp [firstWord, hc]
+  · have : ∀ (l : Bytes) (b : Nat), b ∈ l.takeWhile (fun b => !isWs b) → isWs b = false := by
+      intro l
+      induction l with
+      | nil => intro b hb; simp at hb
+      | cons x xs ih =>
+        intro b hb
+        by_cases hx : isWs x = true
+        · simp [hx] at hb
+        · have hx' : isWs x = false := by simpa using hx
+          simp only [List.takeWhile_cons, hx', Bool.not_false, if_true, List.mem_cons] at hb
+          rcases hb with rfl | hb
+          · exact hx'
+          · exact ih b hb
+    exact this (c :: t)
+
+/-- **C17.fai_file**: the whole plumbing for a file of well-formed records whose headers start with a
+non-blank (file smaller than 2^63 bytes): the index the library writes next to the FASTA, read back
+by `read_index`, is the index it built; and `Genome.from_file` reads from it every record's name
+(first header word) with its true sequence length -/
+theorem fai_file (rs : List Rec) (h : ∀ r ∈ rs, WFRec r)
+    (hh : ∀ r ∈ rs, ∃ c t, r.header = c :: t ∧ isWs c = false) (hsize : (fileOf rs).length < 2 ^ 63) :
+    readIndex (faiText (createIndex (fileOf rs))) = some (createIndex (fileOf rs)) ∧
+    genomeSizes (faiText (createIndex (fileOf rs))) = some (rs.map (fun r => (firstWord r.header, r.seq.length))) := by
+  have hidx := (index_rows rs h).2
+  have hsmall : ∀ row ∈ createIndex (fileOf rs), small row := by
+    intro row hr
+    rw [hidx] at hr
+    obtain ⟨row0, hr0, rfl⟩ := List.mem_map.mp hr
+    have := spec_rows_small 0 rs h row0 hr0
+    unfold small
+    simp only
+    omega
+  have hnames : ∀ row ∈ createIndex (fileOf rs), goodName row.name := by
+    intro row hr
+    rw [hidx] at hr
+    obtain ⟨row0, hr0, rfl⟩ := List.mem_map.mp hr
+    simp only
+    have : ∃ r ∈ rs, row0.name = r.header := by
+      have key : ∀ (off : Nat) (l : List Rec), row0 ∈ specIndexFrom off l → ∃ r ∈ l, row0.name = r.header := by
+        intro off l
+        induction l generalizing off with
+        | nil => intro hm; simp [specIndexFrom] at hm
+        | cons r l ih =>
+          intro hm
+          simp only [specIndexFrom, List.mem_cons] at hm
+          rcases hm with rfl | hm
+          · exact ⟨r, by simp, rfl⟩
+          · obtain ⟨r', hr', he⟩ := ih _ hm
+            exact ⟨r', by simp [hr'], he⟩
+      exact key 0 rs hr0
+    obtain ⟨r, hrm, he⟩ := this
+    rw [he]
+    exact firstWord_goodName r.header (hh r hrm)
+  refine ⟨fai_roundtrip _ hsmall hnames, ?_⟩
+  rw [genome_sizes _ hsmall hnames]
+  have hc := contig_lengths rs h
+  unfold contigLengths at hc
+  congr 1
+  rw [← hc]
+  apply List.map_congr_left
+  intro row hr
+  rw [firstWord_good row.name (hnames row hr)]
+
+
+section Traced
+open Gen.C17
+
+/-! ### the hand model's row/offset arithmetic IS the arithmetic traced from the code -/
+
+theorem fdiv_nat (x y : Nat) : Int.fdiv (x : Int) (y : Int) = ((x / y : Nat) : Int) := by
+  rw [Int.fdiv_eq_ediv_of_nonneg _ (by omega)]; simp
+
+theorem fmod_nat (x y : Nat) : Int.fmod (x : Int) (y : Int) = ((x % y : Nat) : Int) := by
+  rw [Int.fmod_eq_emod_of_nonneg _ (by omega)]; simp
+
+theorem cast_pred_add (r c : Nat) (hr : 0 < r) : ((r : Int) + (c : Int) - 1) = ((r + c - 1 : Nat) : Int) := by
+  omega
+
+/-- **C17.traced_kernel**: on natural-number arguments the expressions traced from the running
+`get_interval_sequences` are exactly the quantities the model uses (seek position, read length,
+number of deleted newline positions, start column), and the row length the code claims for an
+interval is `b − a` whenever `lenb = lenc + 1` -/
+theorem traced_kernel (a b rlen offset lenc lenb : Nat) :
+    trSeek a b rlen offset lenc lenb = ((offset + (a / lenc * lenb + a % lenc) : Nat) : Int) ∧
+    (trReadLen a b rlen offset lenc lenb).toNat = (b / lenc * lenb + b % lenc) - (a / lenc * lenb + a % lenc) ∧
+    (trNDel a b rlen offset lenc lenb).toNat = b / lenc - a / lenc ∧
+    trStartMod a b rlen offset lenc lenb = ((a % lenc : Nat) : Int) ∧
+    (a ≤ b → lenb = lenc + 1 → trRowLen a b rlen offset lenc lenb = ((b - a : Nat) : Int)) := by
+  unfold trSeek trReadLen trNDel trStartMod trRowLen
+  simp only [fdiv_nat, fmod_nat]
+  obtain ⟨qa, hqa⟩ : ∃ qa, qa = a / lenc := ⟨_, rfl⟩
+  obtain ⟨qb, hqb⟩ : ∃ qb, qb = b / lenc := ⟨_, rfl⟩
+  obtain ⟨ra, hra⟩ : ∃ ra, ra = a % lenc := ⟨_, rfl⟩
+  obtain ⟨rb, hrb⟩ : ∃ rb, rb = b % lenc := ⟨_, rfl⟩
+  have h1 := Nat.div_add_mod a lenc
+  have h2 := Nat.div_add_mod b lenc
+  rw [← hqa, ← hra] at h1
+  rw [← hqb, ← hrb] at h2
+  simp only [← hqa, ← hqb, ← hra, ← hrb]
+  refine ⟨?_, ?_, by omega, trivial, ?_⟩
+  · rw [Int.natCast_add, Int.natCast_add, Int.natCast_mul]
+  · rw [← Int.natCast_mul, ← Int.natCast_mul, ← Int.natCast_add, ← Int.natCast_add]; omega
+  · intro hab hl
+    subst hl
+    have hq : qa ≤ qb := by rw [hqa, hqb]; exact Nat.div_le_div_right hab
+    have hA : (a : Int) = (qa : Int) * (lenc : Int) + (ra : Int) := by
+      rw [← h1, Int.natCast_add, Int.natCast_mul, Int.mul_comm]
+    have hB : (b : Int) = (qb : Int) * (lenc : Int) + (rb : Int) := by
+      rw [← h2, Int.natCast_add, Int.natCast_mul, Int.mul_comm]
+    rw [Int.natCast_sub hab, hA, hB, Int.natCast_add, Int.natCast_one, Int.mul_add, Int.mul_add, Int.mul_one, Int.mul_one]
+    generalize (qa : Int) * (lenc : Int) = X
+    generalize (qb : Int) * (lenc : Int) = Y
+    omega
+
+/-- the row count and whole-contig read length traced from `__getitem__` are the model's
+(`rlen ≥ 1`, `lenc ≥ 1`) -/
+theorem traced_bytes_to_read (a b rlen offset lenc lenb : Nat) (hr : 0 < rlen) (hc : 0 < lenc) :
+    trNRows a b rlen offset lenc lenb = (((rlen + lenc - 1) / lenc : Nat) : Int) ∧
+    trBytesToRead a b rlen offset lenc lenb =
+      ((((rlen + lenc - 1) / lenc - 1) * lenb + (rlen - ((rlen + lenc - 1) / lenc - 1) * lenc) : Nat) : Int) := by
+  unfold trNRows trBytesToRead
+  rw [cast_pred_add rlen lenc hr, fdiv_nat]
+  refine ⟨rfl, ?_⟩
+  obtain ⟨n, hn⟩ : ∃ n, n = (rlen + lenc - 1) / lenc := ⟨_, rfl⟩
+  rw [← hn]
+  have hn' : n = (rlen - 1) / lenc + 1 := by
+    rw [hn, show rlen + lenc - 1 = (rlen - 1) + lenc by omega, Nat.add_div_right _ hc]
+  obtain ⟨m, hm⟩ : ∃ m, m = (rlen - 1) / lenc := ⟨_, rfl⟩
+  rw [← hm] at hn'
+  have hle : m * lenc ≤ rlen := by
+    have := Nat.div_mul_le_self (rlen - 1) lenc
+    rw [← hm] at this; omega
+  subst hn'
+  simp only [Nat.add_sub_cancel]
+  have e0 : (((m + 1 : Nat) : Int) - 1) = (m : Int) := by omega
+  rw [e0]
+  have e1 : ((m * lenb + (rlen - m * lenc) : Nat) : Int) = (m : Int) * (lenb : Int) + ((rlen : Int) - (m : Int) * (lenc : Int)) := by
+    rw [Int.natCast_add, Int.natCast_sub hle, Int.natCast_mul, Int.natCast_mul]
+  rw [e1]
+
+
+/-- **C17.fetch_uses_traced**: the model's interval read is the traced arithmetic plugged into the
+file and `np.delete` externals — so `fetch_interval` / `random_access` are statements about what the
+running code computes for these quantities -/
+theorem fetch_uses_traced (file : Bytes) (r : IdxRow) (a b : Nat) :
+    fetchInterval file r a b =
+      deleteIdx (readAt file (trSeek a b r.rlen r.offset r.lenc r.lenb).toNat
+                             (trReadLen a b r.rlen r.offset r.lenc r.lenb).toNat)
+        ((List.range (trNDel a b r.rlen r.offset r.lenc r.lenb).toNat).map
+          (fun j => r.lenb * (j + 1) - 1 - (trStartMod a b r.rlen r.offset r.lenc r.lenb).toNat)) := by
+  obtain ⟨h1, h2, h3, h4, _⟩ := traced_kernel a b r.rlen r.offset r.lenc r.lenb
+  rw [h1, h2, h3, h4]
+  rfl
+
+
+end Traced
 
 /-- the rule shipped before the repair reported bases-per-line: for `>a\nACGTA\nCG\n` (index row
 `a 7 3 5 6`, see `index_rows`) it gave `{'a': 5}`; the true length is 7 -/
